@@ -39,9 +39,16 @@ def _where(fn: str, func: str | None = None) -> str | None:
     return None     # standard library frames (logging, re, struct ...) are skipped: they run on behalf of a caller further out
 
 
+_SAMPLES: dict = {}
+_TICKS = 0
+_N_TICKS = 20
+
+
 def _on_prof(signum, frame):
-    # remember where the CPU budget ran out: innermost frame of the code under test, at file granularity
-    global LAST_PROF_AT
+    # The budget is spent in _N_TICKS slices of CPU time; every slice samples the innermost frame of the code under test.
+    # When the budget is used up the case is attributed to the location seen most often - not to wherever the last slice
+    # happened to end (a long loop in a dependency followed by a short repository function must not blame the latter).
+    global LAST_PROF_AT, _TICKS
     f = frame
     where = None
     while f is not None:
@@ -49,12 +56,19 @@ def _on_prof(signum, frame):
         if where:
             break
         f = f.f_back
-    LAST_PROF_AT = where
-    raise CpuBudget()
+    if where:
+        _SAMPLES[where] = _SAMPLES.get(where, 0) + 1
+    _TICKS += 1
+    if _TICKS >= _N_TICKS:
+        LAST_PROF_AT = max(_SAMPLES, key=_SAMPLES.get) if _SAMPLES else where
+        raise CpuBudget()
 
 
 def arm_cpu(seconds: float) -> None:
-    signal.setitimer(signal.ITIMER_PROF, seconds, 1.0)
+    global _TICKS
+    _SAMPLES.clear()
+    _TICKS = 0
+    signal.setitimer(signal.ITIMER_PROF, seconds / _N_TICKS, seconds / _N_TICKS)
     # a loop inside a C function (regex engine) never reaches the Python-level signal handler: have faulthandler's
     # watchdog thread dump the stack to stderr so that the parent can say where the case was when it killed the worker
     import faulthandler
